@@ -399,6 +399,105 @@ def depth1_const(widths, mixed=True, families=None):
         yield "const_" + fam, tree
 
 
+def _slice_ext(x, w, depth, helpers):
+    """all constant index / slice (or msb/lsb/left/right helper) applications on x of width w, nested up to depth"""
+    nxt = []
+    if not helpers:
+        for i in range(w):
+            yield ("idx", x, i)
+        for hi in range(w):
+            for lo in range(hi + 1):
+                nxt.append((("slice", x, hi, lo), hi - lo + 1))
+    else:
+        for fn in (("msb", "lsb", "left", "right") if helpers == "full" else ("msb", "lsb")):
+            yield ("part", fn, x, None, None)
+            for n in range(1, w + 1):
+                nxt.append((("part", fn, x, n, None), n))
+            if fn in ("msb", "lsb") and helpers == "full":
+                for r in range(0, w):
+                    nxt.append((("part", fn, x, None, r), w - r))
+    for t, wt in nxt:
+        yield t
+        if depth > 1:
+            yield from _slice_ext(t, wt, depth - 1, helpers)
+
+
+def slice_chains(quick=True):
+    """nested constant slices / indices on one root object, chain length 1..3, complete:
+    BitVector[5], Unsigned[4], Signed[4] with every (hi, lo) pair at every level; BitVector[4] (thorough: [5]) with
+    msb(n)/lsb(n) at every level and all of msb/lsb/left/right (count and rest forms) up to length 2; plus slice->helper->index mixtures"""
+    seen = set()
+
+    def emit(tree):
+        tree = renumber(tree)
+        if tree not in seen and well_typed(tree):
+            seen.add(tree)
+            return True
+        return False
+
+    for root in (bv(5), u(4), s(4)):
+        for t in _slice_ext(L(root), root[1], 3, False):
+            if emit(t):
+                yield "slicechain", renumber(t)
+    hw = 4 if quick else 5
+    # helpers: msb(n)/lsb(n) chains of length <= 3; all four helpers with count and rest forms up to length 2
+    for t in _slice_ext(L(bv(hw)), hw, 3, "count"):
+        if emit(t):
+            yield "slicechain", renumber(t)
+    for t in _slice_ext(L(bv(hw)), hw, 2, "full"):
+        if emit(t):
+            yield "slicechain", renumber(t)
+    # mixtures: slice, then helper, then slice/index (and helper, slice, helper)
+    root = L(u(5))
+    for t1, w1 in [(("slice", root, hi, lo), hi - lo + 1) for hi in range(5) for lo in range(hi + 1) if lo > 0 and hi - lo >= 2]:
+        for t2 in _slice_ext(t1, w1, 1, "full"):
+            if t2[0] == "part" and V.typeof(t2) != BIT:
+                for t3 in _slice_ext(t2, V.typeof(t2)[1], 1, False):
+                    if emit(t3):
+                        yield "slicechain", renumber(t3)
+    for fn, n in (("msb", 4), ("lsb", 4), ("msb", 3)):
+        t1 = ("part", fn, root, n, None)
+        for t2 in _slice_ext(t1, n, 1, False):
+            if t2[0] == "slice":
+                for t3 in _slice_ext(t2, V.typeof(t2)[1], 1, "full"):
+                    if emit(t3):
+                        yield "slicechain", renumber(t3)
+
+
+CONV_FORMS = ("assign", "signal", "variable", "temporary", "varassign")
+
+
+def conversions(widths):
+    """every documented conversion (src type, width) -> (dst type, width) in every form, and conversions used as
+    operands of arithmetic / comparison with a value of the target type"""
+    widths = list(widths)
+    dst_widths = widths + [widths[-1] + 1, widths[-1] + 3]
+    srcs = [BIT, BOOL] + list(vec_types(widths))
+    dsts = [BIT, BOOL] + [k(w) for w in dst_widths for k in (bv, u, s)]
+    seen = set()
+    for src in srcs:
+        for dst in dsts:
+            if not V.convertible(src, dst):
+                continue
+            for form in CONV_FORMS:
+                t = renumber(("conv", form, dst, L(src)))
+                if t not in seen and well_typed(t):
+                    seen.add(t)
+                    yield "conv", t
+            if V.is_num(dst) and src != dst:
+                for form in ("temporary", "signal"):
+                    c = ("conv", form, dst, L(src))
+                    for tree in (("bin", "add", c, L(dst)), ("bin", "sub", L(dst), c), ("bin", "mul", c, L(dst)),
+                                 ("cmp", ("lt",), (c, L(dst))), ("cmp", ("eq",), (L(dst), c)), ("un", "neg", c),
+                                 ("bin", "shr", c, lit(1))):
+                        if form == "signal" and tree[0] != "bin":
+                            continue
+                        t = renumber(tree)
+                        if t not in seen and well_typed(t):
+                            seen.add(t)
+                            yield "conv", t
+
+
 # inner operators of depth-2 trees: one representative per code path of the emitter (operator text, cast,
 # function call, selected assignment, slice) -- each produces a Temporary the outer operator has to consume
 def inner_exprs(widths):
@@ -500,6 +599,8 @@ def _children(n):
         return [n[1], n[2], n[3]]
     if k in ("idx", "slice", "resize", "aidx"):
         return [n[1]]
+    if k == "conv":
+        return [n[3]]
     if k == "part":
         return [n[2]]
     if k in ("idxrt", "aidxrt"):
@@ -568,10 +669,32 @@ def key_text(t, v):
     raise ValueError(t)
 
 
-def render(node, leaf):
-    """CoHDL/Python source of a tree; leaf(slot, type) -> text of the operand"""
+def render(node, leaf, mode="hw", prelude=None):
+    """CoHDL/Python source of a tree; leaf(slot, type) -> text of the operand.
+    mode "hw": inside a synthesizable context; "py": on plain Python objects (conversions are written as
+    constructor calls); "desc": type-annotated description.  prelude: {"lines": [...], "prefix": str} collects
+    statements that have to precede the expression (variable assignment form of conversions)."""
     k = node[0]
-    R = lambda n: render(n, leaf)  # noqa
+    R = lambda n: render(n, leaf, mode, prelude)  # noqa
+    if k == "conv":
+        form, dst, x = node[1], node[2], node[3]
+        D = py_type(dst)
+        if mode == "desc":
+            return f"conv[{form}->{V.tname(dst)}]({R(x)})"
+        if mode == "py":
+            return f"{'Bit' if dst == BIT else D}({R(x)})"
+        if form == "assign":
+            return R(x)
+        if form in ("signal", "variable", "temporary"):
+            return f"{form.capitalize()}[{D}]({R(x)})"
+        if form == "varassign":
+            if prelude is None:
+                raise ValueError("varassign needs a prelude")
+            name = f"{prelude['prefix']}{len(prelude['lines'])}"
+            prelude["lines"].append(f"{name} = Variable[{D}]()")
+            prelude["lines"].append(f"{name} @= {R(x)}")
+            return name
+        raise ValueError(form)
     if k == "in":
         return leaf(node[2], node[1])
     if k == "lit":
@@ -644,11 +767,11 @@ def render(node, leaf):
 
 def describe(node):
     """canonical, type-annotated text of a tree (the identity of a failing input in finding keys)"""
-    return render(node, lambda slot, t: f"{V.tname(t)}")
+    return render(node, lambda slot, t: f"{V.tname(t)}", mode="desc")
 
 
 HEADER = '''import cohdl
-from cohdl import std, enum, Entity, Port, Bit, BitVector, Unsigned, Signed, Signal, Null, Full, select_with, op, Array, Integer
+from cohdl import std, enum, Entity, Port, Bit, BitVector, Unsigned, Signed, Signal, Variable, Temporary, Null, Full, select_with, op, Array, Integer
 
 
 class En3(enum.Enum):
